@@ -2235,6 +2235,15 @@ int cif_value_init_numb(cif_value_tp *n, double val, double su, int scale, int m
                     su_size = 0;
                 }
 
+                /*
+                 * Decimal notation would show (scale - <number of digits>) zeroes after the decimal point.  Count them
+                 * from the rounded digit string when there is one: a floating-point logarithm of the value is off by one
+                 * for values just below a power of ten.
+                 */
+                if (*digit_buf != '\0') {
+                    most_significant_place = (int) strlen(digit_buf) - 1 - scale;
+                }
+
                 if ((scale >= 0) && (-(most_significant_place + 1) <= max_leading_zeroes)) {
                     /* use decimal notation */
                     result = format_text_decimal(val, digit_buf, su_buf, su_size, scale, &text);
